@@ -245,3 +245,13 @@ Proof.
   - rewrite Nat.min_r by lia. change (Z.of_nat 10 =? 10) with true. cbv iota.
     rewrite enc_state_10, dec_state_10. unfold CipherZ, InvCipherZ. split; reflexivity.
 Qed.
+
+Theorem aes_state_machines_full key x s (rest : list sm_input) :
+  0 <= key < 2 ^ 128 -> 0 <= x < 2 ^ 128 ->
+  Forall (fun i => fst (fst i) = 0) rest -> (11 <= length rest)%nat ->
+  sm_out (fold_left enc_sm_step rest (enc_sm_step s (1, x, key))) = (1, CipherZ key x) /\
+  sm_out (fold_left dec_sm_step rest (dec_sm_step s (1, x, key))) = (1, InvCipherZ key x).
+Proof.
+  intros Hk Hx HF Hl.
+  destruct (aes_state_machines_lemma key x s rest Hk Hx HF) as [_ H]. apply H. lia.
+Qed.
